@@ -148,7 +148,9 @@ def shrink(bindir, prog_ws, still_fails, budget_s=30):
 def run(ctx):
     t0 = time.time()
     bindir = vlib.build_harness(False, bins=BINS)
-    fails = vlib.proof_step(ctx, "TG.Props.C05", THEOREMS, ["props/C05.vo"], TRUSTED, translators=sl.BRIDGE_TRANSLATORS)
+    fails = vlib.proof_step(ctx, "TG.Props.C05", THEOREMS, ["props/C05.vo"], TRUSTED,
+                            translators=sl.BRIDGE_TRANSLATORS + sl.INDEXER_TRANSLATORS)
+    sl.source_tie(ctx, fails)
     try:
         exe = vlib.build_model("scope")
     except vlib.BuildError as ex:
